@@ -35,7 +35,7 @@ Definition c20_run (input : list Z) : list Z :=
     | None => ERR_DECODE
     | Some (tab3, r) =>
       (* HashMap::insert: a later handler for the same method replaces the earlier one *)
-      let table := rev (map (fun e => let '(m, h, _) := e in (m, h)) tab3) in
+      let table := table_of (map (fun e => let '(m, h, _) := e in (m, h)) tab3) in
       let kind_of (h : Z) := match find (fun e => let '(_, h', _) := e in h' =? h) tab3 with Some (_, _, k) => k | None => 0 end in
       let accepts (h : Z) (d : rdid) := kind_of h =? 0 in
       if (kind =? 1) || (kind =? 5) then     (* kind 5: the same single resolution on the default (Send + Sync) Resolver *)
